@@ -308,7 +308,9 @@ def run_harness(exe, seed, tier, timeout, case_timeout=60, only=None, limit=None
         kind = 'hang' if hung[0] else 'crash'
         m = re.search(r'(ERROR: AddressSanitizer: [\w-]+|runtime error: [^\n]*|Assertion [^\n]*failed|terminate called[^\n]*)', err)
         detail = m.group(1) if m else ('killed after %ds without progress' % case_timeout if hung[0] else 'exit %s' % p.returncode)
-        crashes.append({'case': cur, 'kind': kind, 'detail': detail, 'stderr_tail': err[-3000:]})
+        # 'context': the harness's last comment lines before it died (e.g. '#in <op> <inputs>' replay aids)
+        crashes.append({'case': cur, 'kind': kind, 'detail': detail, 'stderr_tail': err[-3000:],
+                        'context': [l for l in lines[-6:] if l.startswith('#in ')][-1:]})
         lines.append(f'#crashed {cur} {kind} {detail}')
         if only is not None or cur is None:
             break
